@@ -21,7 +21,7 @@ func init() {
 			"(X-mut) effect analysis proves non-mutating forms cannot write a big.Int reachable from an operand; (O) every growing arithmetic method asserts the bit-length bound on the value it returns.",
 		NotCovered:  []string{"exactness of math/big itself", "value-level round-trip of text/JSON/binary encodings beyond 'same codec both ways'", "LegacyDec internals (SDK)"},
 		Assumptions: []string{"math/big method semantics (Quo/QuoRem truncate toward zero, remainder has the dividend's sign)", "the partition's branch predicates are the only value-dependent control flow in the helpers (anything else is reported undecided)"},
-		MinObl:      275,
+		MinObl:      295,
 		Run:         runC12,
 	})
 }
@@ -327,9 +327,51 @@ func runAssertBitLen(c *rules.Ctx, sp *ssa.Package) {
 			continue
 		}
 		n++
+		if ok {
+			// the value asserted is the value returned: assertMaxBitLen(x) with BigDec{x} (or the receiver d with d.i)
+			f := c.Wrap(fn)
+			asserted := map[string]bool{}
+			direct := false
+			for _, call := range f.Calls() {
+				if callee := call.Common().StaticCallee(); callee != nil && callee.Name() == "assertMaxBitLen" && callee.Pkg == sp {
+					direct = true
+					asserted[f.Term(call.Common().Args[0]).String()] = true
+				}
+			}
+			if direct {
+				bad := ""
+				for _, b := range fn.Blocks {
+					ret, isRet := b.Instrs[len(b.Instrs)-1].(*ssa.Return)
+					if !isRet || len(ret.Results) == 0 || !f.CanSucceed(b) {
+						continue
+					}
+					t := f.Term(ret.Results[0])
+					switch {
+					case t.Op == "call" && strings.HasPrefix(t.Name, "with:i") && len(t.Args) == 2:
+						if !asserted[t.Args[1].String()] {
+							bad = "returns BigDec{" + t.Args[1].String() + "} but asserts " + keysOf(asserted)
+						}
+					case t.Op == "param":
+						if !asserted[t.String()+".i"] {
+							bad = "returns " + t.String() + " but asserts " + keysOf(asserted)
+						}
+					}
+				}
+				c.Record("O-assert", name, "bitlen-value", "the bit-length assertion is applied to the very value the operation returns", bad == "", orStr(bad, "asserted value = returned value"), pos)
+			}
+		}
 		c.Record("O-assert", name, "bitlen", "a BigDec operation that can grow the magnitude asserts the bit-length bound on every path to a normal return (results beyond the bound fail rather than wrap)", ok, orStr(map[bool]string{true: "assertMaxBitLen on every path", false: "a path returns without assertMaxBitLen"}[ok], ""), pos)
 	}
 	c.R.Extra["assert_bitlen_functions"] = n
 	// assertMaxBitLen itself: panics iff BitLen() > maxDecBitLen
 	c.FailsWhen("osmomath.assertMaxBitLen", "gt(big.Int.BitLen(i), 1144)", "the assertion panics exactly when the bit length exceeds maxDecBitLen = 1024+120", rules.GuardOpt{})
+}
+
+func keysOf(m map[string]bool) string {
+	var ks []string
+	for k := range m {
+		ks = append(ks, k)
+	}
+	sort.Strings(ks)
+	return strings.Join(ks, ", ")
 }
